@@ -46,6 +46,12 @@ Example C05_inner_violation_not_repairable :
             (OCallB [BInner [(true, ("x", VInt (-1)))] false; BRaw "x" (VInt 1)] false 7)) = InvError.
 Proof. exact inner_violation_not_repairable. Qed.
 
+(* for every history of operations from every state: after each assignment or method call (plain or with nested calls / unseen stores)
+   that was made while contracts were enabled and completed, every invariant is true *)
+Theorem C05_every_reachable_state : forall cls invs h s, history_ok cls invs s h.
+Proof. exact every_history_ok. Qed.
+Print Assumptions C05_every_reachable_state.
+
 (* refuted at full strength ("an operation that leaves an invariant false raises the invariant-violation error"): a method that
    raises an exception of its own is not validated on the way out, so a store that no __setattr__ saw escapes under that exception
    (finding C05-F3; the same history runs against the real class in corpus/C05/unseen-store-then-raise.json) *)
